@@ -262,6 +262,12 @@ def besthand_check(prop, tier, seed, work, replay):
     mcs = [generic_mc(work, "MCRank.tla", "mcrank0", dict(RankSet="{2,3,4,5,6,14}", Tables='{"standard","short"}'), invariants=["Iso"])]
     dr = ec.Drive(work, binary)
     dr.generic("deal", "holdem-deal", ["-runs", 500 if q else 6000, "-seed", seed])
+    # every seven-card situation of a reduced deck through real hands (quick: every 12th / 20th board, the offset moves with the seed):
+    # 2 suits x 7 ranks (flushes, straights incl. the wheel, pairs), 3 suits x 5 ranks under the short-deck table (trips, full houses, wheel flush)
+    exhaustive = [dr.generic("dealall-2x7", "holdem-dealall", ["-ranks", "A234567", "-suits", "SH", "-req", 0, "-stride", 12 if q else 1, "-offset", seed, "-seed", seed]),
+                  dr.generic("dealall-3x5", "holdem-dealall", ["-ranks", "A2345", "-suits", "SHD", "-req", 0, "-table", "short", "-stride", 20 if q else 1, "-offset", seed, "-seed", seed])]
+    if not q:
+        exhaustive.append(dr.generic("dealall-2x7-req2", "holdem-dealall", ["-ranks", "A234567", "-suits", "SH", "-req", 2, "-seed", seed]))
     dr.random("random", 220 if q else 3000, seed * 1000 + 11, [], runbase=0)
     simfile = os.path.join(dr.d, "sim.scripts")
     nsim = ec.sim_scripts(work, 60 if q else 600, seed, simfile, 5000000)
@@ -285,10 +291,12 @@ def besthand_check(prop, tier, seed, work, replay):
         "streets_evaluated_by_variant": streets,
         "published_hands_checked": sum(streets.values()),
         "real_steps_validated": res["lines"], "tlc_scripts": nsim,
+        "reduced_deck_enumeration": [{k: st.get(k) for k in ("deck_cards", "boards", "boards_of_the_deck", "situations", "runs", "req", "table")} for st in exhaustive],
         "model_drift_lines": len(res["drift"]), "failed_clauses": sorted({v["clause"] for v in res["viol"]}),
         "exhaustive": False,
         "explanation": "sampled, not exhaustive over C(52,7): every street of constructed-deck hands (category boundaries), random hands and "
-                       "TLC-generated scripts; each published hand is compared by TLC with every admissible five-card selection under HandRank.RefKey",
+                       "TLC-generated scripts; each published hand is compared by TLC with every admissible five-card selection under HandRank.RefKey; "
+                       "exhaustive over the seven-card situations of two reduced decks (14 and 15 cards) in the thorough tier, every 12th / 20th board of them in the quick tier",
     }
     vlib.write_evidence(prop, tier, seed, coverage, time.time() - t0, nviol,
                         assumptions=["C03 (the evaluator orders five-card hands correctly) is checked separately and exhaustively",
